@@ -178,6 +178,12 @@ class Check:
                 self.dont_care['drift: ' + v[1]] = self.dont_care.get('drift: ' + v[1], 0) + 1
         for t in traces[:keep_samples]:
             self.samples.append({'label': label, 'trace': _trim(strip_private(t))})
+        # vacuity guard for trace batches: if (almost) every trace falls outside the precondition of the judged clauses the
+        # batch decided nothing, and the generators or the precondition predicate are wrong
+        decided = sum(n for code, n in lab.items() if code != 'NA')
+        if len(traces) >= 50 and decided * 10 < len(traces):
+            raise tlc.MachineryError(f'vacuous batch {label!r} judged by {module}: only {decided} of {len(traces)} traces were inside '
+                                     f'the precondition of the judged clauses ({lab})')
         return verdicts
 
     # -------------------------------------------------------------- finish
